@@ -131,8 +131,7 @@ public:
    * @returns locally accumulated value
    */
   Ty read_local() {
-    if (local_mdata == 0)
-      local_mdata = mdata.reduce();
+    local_mdata = mdata.reduce();
     return local_mdata;
   }
 
@@ -173,8 +172,7 @@ public:
                                                          "DGReducible");
     reduceTimer.start();
 
-    if (local_mdata == 0)
-      local_mdata = mdata.reduce();
+    local_mdata = mdata.reduce();
 
 #ifdef GALOIS_USE_LCI
     reduce_lwci();
@@ -270,8 +268,7 @@ public:
    * reduce has never been called
    */
   Ty read_local() {
-    if (local_mdata == 0)
-      local_mdata = mdata.reduce();
+    local_mdata = mdata.reduce();
     return local_mdata;
   }
 
@@ -309,8 +306,7 @@ public:
                                                          "DGReduceMax");
 
     reduceTimer.start();
-    if (local_mdata == 0)
-      local_mdata = mdata.reduce();
+    local_mdata = mdata.reduce();
 
 #ifdef GALOIS_USE_LCI
     reduce_lwci();
@@ -406,8 +402,7 @@ public:
    * reduce has never been called
    */
   Ty read_local() {
-    if (local_mdata == std::numeric_limits<Ty>::max())
-      local_mdata = mdata.reduce();
+    local_mdata = mdata.reduce();
     return local_mdata;
   }
 
@@ -445,8 +440,7 @@ public:
                                                          "DGReduceMin");
 
     reduceTimer.start();
-    if (local_mdata == std::numeric_limits<Ty>::max())
-      local_mdata = mdata.reduce();
+    local_mdata = mdata.reduce();
 
 #ifdef GALOIS_USE_LCI
     reduce_lwci();
